@@ -5,6 +5,7 @@
 From Coq Require Import ZArith List Bool Arith.
 Import ListNotations.
 From HV Require Import lib.Harness model.Types model.Ops spec.OpsS proofs.OpsP.
+From HV Require Import model.OpsStore spec.OpsStoreS proofs.OpsStoreP.
 Local Open Scope Z_scope.
 
 (* the signature the specification assigns to a node is the one the operation reports
@@ -118,6 +119,55 @@ Theorem C06_order_port_orig_refuted : exists o1 o2 o3 : op ty,
      spec_port_kind (ctype_of ty vt0) o Out (-1) = Port OrderKind /\ port_kind_orig vt0 o Out (-1) <> Ret OrderKind).
 Proof. exact order_port_orig_refuted. Qed.
 
+(* ---- histories (seeded round 2): the same clauses for a node of a Hugr after ANY sequence of add_node /
+   delete_node (the freed index is reused) / assignment of hugr[n].op / in-place completion of the operation,
+   whatever was queried in between: the node store holds at every index the operation put there by the last
+   step touching the index, and every answer is the one the specification assigns to THAT operation ---- *)
+Theorem C06_store_holds_last_op : forall V (l : list (sstep V)) n o,
+  lookup (run [] l) n = Some o <-> current l n o.
+Proof. exact store_holds_last_op. Qed.
+Theorem C06_store_vacant : forall V (l : list (sstep V)) n, lookup (run [] l) n = None <-> vacant l n.
+Proof. exact store_vacant. Qed.
+Theorem C06_hist_port_kind_correct : forall V vtype (l : list (sstep V)) n o d z k,
+  current l n o -> spec_port_kind (ctype_of V vtype) o d z = Port k ->
+  store_port_kind vtype (run [] l) n d z = Some (Ret k).
+Proof. exact hist_port_kind_correct. Qed.
+Theorem C06_hist_no_invented_port : forall V vtype (l : list (sstep V)) n o d z,
+  current l n o -> spec_port_kind (ctype_of V vtype) o d z = NoPort ->
+  exists r, store_port_kind vtype (run [] l) n d z = Some r /\ is_typed r = false.
+Proof. exact hist_no_invented_port. Qed.
+Theorem C06_hist_value_out_type_is_kind_payload : forall V vtype (l : list (sstep V)) n z t,
+  store_port_kind vtype (run [] l) n Out z = Some (Ret (ValueKind t)) <->
+  store_port_type vtype (run [] l) n Out z = Some (Ret (Some t)).
+Proof. exact hist_value_out_type_is_kind_payload. Qed.
+Theorem C06_hist_signature_is_specified : forall V (l : list (sstep V)) n o s,
+  current l n o -> has_sig o s ->
+  exists f, at_node (run [] l) n (@df_sig V) = Some (Ret f) /\ (f_in f, f_out f) = s.
+Proof. exact hist_signature_is_specified. Qed.
+Theorem C06_hist_num_out_correct : forall V (l : list (sstep V)) n o k,
+  current l n o -> spec_num_out o = Some k -> store_num_out (run [] l) n = Some (Ret (Z.of_nat k)).
+Proof. exact hist_num_out_correct. Qed.
+Theorem C06_hist_vacant_no_answer : forall V vtype (l : list (sstep V)) n d z,
+  vacant l n -> store_port_kind vtype (run [] l) n d z = None /\ store_port_type vtype (run [] l) n d z = None.
+Proof. exact hist_vacant_no_answer. Qed.
+(* nothing is remembered between queries: two histories leaving the same operation at an index answer alike *)
+Theorem C06_hist_answers_ignore_the_past : forall V vtype (l1 l2 : list (sstep V)) n,
+  (forall o, current l1 n o <-> current l2 n o) ->
+  forall d z, store_port_kind vtype (run [] l1) n d z = store_port_kind vtype (run [] l2) n d z /\
+              store_port_type vtype (run [] l1) n d z = store_port_type vtype (run [] l2) n d z /\
+              store_op_port_type (run [] l1) n d z = store_op_port_type (run [] l2) n d z /\
+              store_outer_sig (run [] l1) n = store_outer_sig (run [] l2) n /\
+              store_inner_sig (run [] l1) n = store_inner_sig (run [] l2) n /\
+              store_num_out (run [] l1) n = store_num_out (run [] l2) n.
+Proof. exact hist_answers_ignore_the_past. Qed.
+(* non-vacuity: Noop(usize) at index 3 deleted, the index reused by MakeTuple([qubit, usize]) *)
+Example C06_hist_example :
+  current ex_hist 3 (OMakeTuple (Some [TQubit; TUSize])) /\ vacant ex_hist 4 /\
+  store_port_type vt0 (run [] ex_hist) 3 Out 0 = Some (Ret (Some (TSum [[TQubit; TUSize]]))) /\
+  store_port_kind vt0 (run [] ex_hist) 3 Out 0 = Some (Ret (ValueKind (TSum [[TQubit; TUSize]]))) /\
+  store_port_type vt0 (run [] [SPut 3 (ONoop (Some TUSize))]) 3 Out 0 = Some (Ret (Some TUSize)).
+Proof. exact ex_hist_reuse. Qed.
+
 Print Assumptions C06_signature_is_specified.
 Print Assumptions C06_signature_only_specified.
 Print Assumptions C06_signature_unique.
@@ -140,3 +190,12 @@ Print Assumptions C06_num_out_correct.
 Print Assumptions C06_value_out_type_is_kind_payload.
 Print Assumptions C06_call_counts_orig_refuted.
 Print Assumptions C06_order_port_orig_refuted.
+Print Assumptions C06_store_holds_last_op.
+Print Assumptions C06_store_vacant.
+Print Assumptions C06_hist_port_kind_correct.
+Print Assumptions C06_hist_no_invented_port.
+Print Assumptions C06_hist_value_out_type_is_kind_payload.
+Print Assumptions C06_hist_signature_is_specified.
+Print Assumptions C06_hist_num_out_correct.
+Print Assumptions C06_hist_vacant_no_answer.
+Print Assumptions C06_hist_answers_ignore_the_past.
